@@ -13,13 +13,17 @@ def install_audit():
     orig = scenario.Impl.run
 
     def run(self, op):
+        rt.commands()  # (the tool is imported, and the harness's scratch home made, outside the recorded region)
         ev, io_ = audit.record(lambda: orig(self, op))
         lnk = os.path.join(self.base, "_lnk")
         # paths spelled through the harness's own symbolic link denote the same files
         ev = [tuple((self.base + x[len(lnk):]) if isinstance(x, str) and (x == lnk or x.startswith(lnk + os.sep)) else x for x in e) for e in ev]
         if io_ is not None:
             # keep only events below the scenario base that the harness itself did not cause (the -ii temp file)
-            io_["audit"] = [e for e in ev if any(isinstance(x, str) and (x.startswith(self.base) or not x.startswith("/")) for x in e[1:2]) and not any(isinstance(x, str) and x == self.iifile for x in e[1:])]
+            # ... and events in the harness's scratch HOME / import-time working directory: a command that resolves a path
+            # against the wrong place ends up there
+            home = rt._HOME or "\0"
+            io_["audit"] = [e for e in ev if any(isinstance(x, str) and (x.startswith(self.base) or x.startswith(home) or not x.startswith("/")) for x in e[1:2]) and not any(isinstance(x, str) and x == self.iifile for x in e[1:])]
             # relative paths are relative to the cwd at the time; the harness only uses cwd inside the base
             io_["audit"] = [tuple([e[0]] + [os.path.join(self.base, x) if isinstance(x, str) and not x.startswith("/") and i == 0 and False else x for i, x in enumerate(e[1:])]) for e in io_["audit"]]
         return io_
@@ -170,6 +174,16 @@ def run(ctx):
                {"op": "write", "path": "new.txt", "data": "n"}, {"op": "mv", "src": "a.txt", "dst": "a2.txt"},
                dict({"op": "create", "at": "", "h": ["md5"], "now": "2026-03-01 12:00:03"}, **({"dr": True} if dr else {})), {"op": "verify", "at": ""}, {"op": "info", "at": ""}]
         scs.insert(0, {"profile": "c14-ignored-nested", "impl_only": True, "root": "root", "tree": tree, "ops": ops})
+    # a folder whose name a shell would expand (~, $HOME) given as a relative path: the commands work on THAT folder
+    for nm in ("~", "$HOME", "~root"):
+        ops = [{"op": "create", "at": "", "h": ["md5"], "now": "2026-03-01 12:00:01", "spell": "relative"}, {"op": "verify", "at": "", "spell": "relative"}, {"op": "info", "at": "", "spell": "relative"},
+               {"op": "diff", "at": "", "spell": "relative"}, {"op": "create", "at": "", "h": ["md5"], "now": "2026-03-01 12:00:02", "spell": "relative", "sf": ["a.txt"]}, {"op": "flatten", "at": "", "spell": "relative"},
+               {"op": "verifypl", "at": "", "spell": "relative"}]
+        scs.insert(0, {"profile": "c14-shell-name", "impl_only": True, "root": nm, "tree": {"a.txt": "a", "s/b.txt": "b"}, "ops": ops})
+    # a packing list verified on a later day than it was written (and again a month later)
+    scs.insert(0, {"profile": "c14-pl-later", "impl_only": True, "root": "root", "tree": {"a.txt": "a", "s/b.txt": "b"},
+                   "ops": [{"op": "create", "at": "", "h": ["md5"], "now": "2026-03-01 12:00:01"}, {"op": "flatten", "at": "", "now": "2026-03-01 13:00:00"}, {"op": "verifypl", "at": "", "now": "2026-03-01 14:00:00"},
+                           {"op": "verifypl", "at": "", "now": "2026-03-02 09:00:00"}, {"op": "verifypl", "at": "", "now": "2026-04-02 09:00:00"}]})
     # histories in states that no command of the current tool produces (the text chain of the first releases with or
     # without the XML chain, no chain at all, foreign files in the ascmhl folder): whatever the commands answer, the
     # read-only ones write nothing and flatten writes nothing into the source
